@@ -183,6 +183,12 @@ func genC12(r *Rand, tier string) []Case {
 			q := base()
 			q.Items = []Item{{E: Col("id")}, {E: f, Alias: "v"}}
 			add(q, name, "select-item", 2)
+			if async && name != "subquery-async" {
+				// ... followed by an effect-only item (no column) that carries the same alias: the slot is still this item's
+				q2 := base()
+				q2.Items = []Item{{E: Col("id")}, {E: f, Alias: "v"}, {E: &Expr{K: "call", Qual: "SPIN", Name: "idf", Items: []*Expr{Num(1)}}, Alias: "v"}}
+				add(q2, name, "select-item-then-omitted-same-alias", 2)
+			}
 			if async {
 				// ... also over the inner dimensions of a multi-dimensional FROM
 				nq := &Stmt{From: &From{K: "table", Path: []string{"nn"}}, Items: []Item{{E: Col("id")}, {E: f, Alias: "v"}}}
@@ -324,4 +330,123 @@ func containsNonFinite(v any) bool {
 func init() {
 	register(propC12{engineProp{id: "C12", checkFn: "EngineRun.check_c12", gen: genC12,
 		rule: "a generated matrix of ~30 expression forms (columns, paths, literals, arithmetic incl. NULL operands, unary, comparisons, LIKE/IN/BETWEEN/IS, boolean connectives, CASE returning a column / arithmetic / literal, row-scoped subquery, EXISTS, plain and ASYNC user-function calls) x 12 clause positions (select item, next to *, CASE branch, function argument, derived-table column, CTE column, union branch, DISTINCT+ORDER BY, group item, join output, WHERE / WHERE operand, IN-list element); each result is walked by Go type (anything but nil|bool|number|string|[]any|map is a leak), checked for `<-` keys and reference cycles, marshalled with encoding/json, compared with the model, and the query is executed twice on equal inputs (identical sequence; joins: equal multiset); every case is non-trivial"}})
+}
+
+// ---------- ASYNC x nesting matrix (used by C12 itself and, as a stage, by C13 and C14) ----------
+// Every way a query can be nested inside another one (derived table, row-scoped subquery, EXISTS, inner dimension of a
+// multi-dimensional FROM, CTE body, UNION side, join operand) hands the inner query's outstanding ASYNC calls to the
+// enclosing query. The matrix composes two levels of nesting of different kinds around one ASYNC select item with a
+// latency: when Exec returns, the slot holds the value (model: the unqualified call's value).
+func genAsyncNesting(r *Rand, tier string) []Case {
+	rounds := 2
+	if tier == "thorough" {
+		rounds = 12
+	}
+	var out []Case
+	for round := 0; round < rounds; round++ {
+		t := genTable(r, 3)
+		for len(t.rows) < 2 {
+			t = genTable(r, 3)
+		}
+		for _, row := range t.rows {
+			m := row.(map[string]any)
+			k := 1 + r.Intn(2)
+			items := make([]any, k)
+			for j := range items {
+				items[j] = map[string]any{"p": float64(r.Intn(4))}
+			}
+			m["items"] = items
+		}
+		doc := map[string]any{"t": t.rows, "u": genTable(r, 3).rows, "nn": []any{t.rows, []any{}, t.rows[:1]},
+			"nnn": []any{[]any{t.rows[:1], t.rows}, []any{}, []any{t.rows}}}
+		call := func(arg *Expr) *Expr {
+			return &Expr{K: "call", Qual: "ASYNC", Name: Pick(r, []string{"slowf", "idf", "slowf"}), Items: []*Expr{arg}}
+		}
+		// level-1 queries producing column v from an ASYNC call
+		flat := func(src []string) *Stmt {
+			return &Stmt{From: &From{K: "table", Path: src}, Items: []Item{{E: Col("id")}, {E: call(Col("n1")), Alias: "v"}}}
+		}
+		dualq := func(arg *Expr) *Stmt {
+			return &Stmt{From: &From{K: "dual"}, Items: []Item{{E: call(arg), Alias: "v"}}}
+		}
+		inner := map[string]func() *Stmt{
+			"flat":      func() *Stmt { return flat([]string{"t"}) },
+			"two-dim":   func() *Stmt { return flat([]string{"nn"}) },
+			"three-dim": func() *Stmt { return flat([]string{"nnn"}) },
+			"derived": func() *Stmt {
+				return &Stmt{From: &From{K: "derived", Q: flat([]string{"t"}), Alias: "y"}, Items: []Item{{E: Col("y", "id"), Alias: "id"}, {E: Col("y", "v"), Alias: "v"}}}
+			},
+			"derived-star": func() *Stmt {
+				return &Stmt{From: &From{K: "derived", Q: flat([]string{"t"}), Alias: "y"}, Items: []Item{{Star: true}}}
+			},
+			"cte": func() *Stmt {
+				return &Stmt{From: &From{K: "table", Path: []string{"c"}}, Items: []Item{{Star: true}}, With: []CTE{{Name: "c", Q: flat([]string{"t"})}}}
+			},
+			"union": func() *Stmt { return &Stmt{Union: true, All: true, L: flat([]string{"t"}), R: flat([]string{"u"})} },
+			"join-operand": func() *Stmt {
+				return &Stmt{From: &From{K: "join", JT: "inner", Strat: "auto", L: &From{K: "derived", Q: flat([]string{"t"}), Alias: "x"}, R: &From{K: "table", Path: []string{"u"}, Alias: "y"},
+					On: Cmp("=", Col("x", "id"), Col("y", "id"))}, Items: []Item{{Star: true}}}
+			},
+		}
+		add := func(q *Stmt, in, outer string) {
+			c := mkCase(doc, q, []string{"inner:" + in, "outer:" + outer}, true)
+			e := c.Input.(engIn)
+			e.Repeat = 2
+			c.Input = e
+			c.Key = in + "|" + outer + "|" + fmt.Sprint(round)
+			out = append(out, c)
+		}
+		for name, mk := range inner {
+			add(mk(), name, "top")
+			// level 2: the level-1 query nested once more
+			add(&Stmt{From: &From{K: "derived", Q: mk(), Alias: "d"}, Items: []Item{{Star: true}}}, name, "derived")
+			add(&Stmt{From: &From{K: "table", Path: []string{"w"}}, Items: []Item{{Star: true}}, With: []CTE{{Name: "w", Q: mk()}}}, name, "cte")
+			if name != "union" {
+				add(&Stmt{Union: true, All: true, L: mk(), R: mk()}, name, "union-side")
+			}
+			// as a row-scoped subquery / EXISTS of an outer row: the level-1 source is re-rooted through the back-reference
+			reroot := func(q *Stmt) *Stmt {
+				c := *q
+				var fix func(f *From) *From
+				fix = func(f *From) *From {
+					g := *f
+					switch f.K {
+					case "table":
+						if len(f.Path) > 0 && (f.Path[0] == "t" || f.Path[0] == "u" || f.Path[0] == "nn" || f.Path[0] == "nnn") {
+							g.Path = append([]string{"<-"}, f.Path...)
+						}
+					case "derived":
+						g.Q = nil
+						qq := *f.Q
+						qq.From = fix(f.Q.From)
+						g.Q = &qq
+					case "join":
+						g.L, g.R = fix(f.L), fix(f.R)
+					}
+					return &g
+				}
+				if c.Union || len(c.With) > 0 {
+					return nil
+				}
+				c.From = fix(q.From)
+				return &c
+			}
+			if rq := reroot(mk()); rq != nil {
+				add(&Stmt{From: &From{K: "table", Path: []string{"t"}}, Items: []Item{{E: Col("id")}, {E: &Expr{K: "sub", Q: rq}, Alias: "s"}}}, name, "row-subquery")
+			}
+		}
+		// the ASYNC call directly in a row-scoped subquery over dual whose FROM is a derived table (no direct call in the middle query)
+		mid := &Stmt{From: &From{K: "derived", Q: dualq(Col("<-", "n1")), Alias: "y"}, Items: []Item{{E: Col("y", "v"), Alias: "v"}}}
+		add(&Stmt{From: &From{K: "table", Path: []string{"t"}}, Items: []Item{{E: Col("id")}, {E: &Expr{K: "sub", Q: mid}, Alias: "s"}}}, "dual-derived", "row-subquery")
+		add(&Stmt{From: &From{K: "table", Path: []string{"t"}}, Items: []Item{{E: Col("id")}},
+			Where: &Expr{K: "exists", Q: &Stmt{From: &From{K: "derived", Q: dualq(Num(1)), Alias: "y"}, Items: []Item{{Star: true}}}}}, "dual-derived", "exists")
+	}
+	return out
+}
+
+type propAsyncNesting struct{ propC12 }
+
+func init() {
+	register(propAsyncNesting{propC12{engineProp{id: "ASYNCNEST", checkFn: "EngineRun.check_c12", gen: genAsyncNesting,
+		rule: "one ASYNC select item (with and without latency) inside every level-1 nesting (flat, 2- and 3-dimensional FROM, derived table re-projected or passed on with *, CTE, UNION side, join operand) x every level-2 nesting (top, derived, CTE, UNION side, row-scoped subquery); plus dual-in-derived under a row subquery / EXISTS; the raw result is type-walked (an unresolved slot is a leak) and compared with the model; each query runs twice"}}})
 }
